@@ -577,6 +577,15 @@ package gorm
 //@   min-sites 1
 //@   assert at-least-one-row-requested: arg1 >= 1 [C15]
 //@   assert no-larger-than-requested: arg1 <= old(batchSize) [C15]
+//@ ghost rowsThisBatch
+//@ event call (*DB).Find
+//@   in gorm.(*DB).FindInBatches
+//@   do rowsThisBatch = result.RowsAffected
+//@ site batch-count-is-stable
+//@   match load DB.RowsAffected
+//@   in gorm.(*DB).FindInBatches
+//@   min-sites 4
+//@   assert reads-the-count-the-query-reported: arg0 == rowsThisBatch [C15]
 //@ site batch-result
 //@   match call gorm.(*DB).Find
 //@   in gorm.(*DB).FindInBatches
